@@ -200,13 +200,41 @@ class Ref:
         memo[k] = v
         return v
 
-    def table(self, names=None):
-        """{name: [value at k=0..n]}; raises IllConditioned for unusable specs."""
+    def table(self, names=None, conditioning=True):
+        """{name: [value at k=0..n]}; raises IllConditioned for unusable specs.
+
+        conditioning: the table is computed a second time with every stock's initial value and every constant
+        perturbed by a relative 1e-12 (zeros stay zero); a cell that moves by more than 1e-10 means the dynamics amplify
+        rounding noise by more than 100x (an unstable Euler recursion, e.g. |1 - dt*k| > 1 over many steps), so a legitimate
+        difference in floating-point summation order could exceed the comparison tolerance of the checks: such specs are
+        set aside as ill-conditioned instead of being judged."""
         names = names or self.order
         out = {}
         for k in range(self.n + 1):
             for nme in self.order:
                 self.value(nme, k)
+        if conditioning:
+            import copy
+            sp2 = copy.deepcopy(self.spec)
+            for e in sp2["elements"]:
+                if e["kind"] == "stock" and not isinstance(e.get("init", 0.0), dict):
+                    e["init"] = float(e.get("init", 0.0)) * (1 + 1e-12)
+                elif e["kind"] == "constant":
+                    e["value"] = float(e["value"]) * (1 + 1e-12)
+            twin = Ref(sp2, self.sched)
+            import vlib.expr as _X
+            _X.TINY_OK[0] = True
+            try:
+                t2 = twin.table(conditioning=False)
+            finally:
+                _X.TINY_OK[0] = False
+            if twin.min_dist < self.min_dist:
+                self.min_dist = twin.min_dist
+            for nme in self.order:
+                for k in range(self.n + 1):
+                    a, b = self.vals[nme][k], t2[nme][k]
+                    if isinstance(a, (int, float)) and isinstance(b, (int, float)) and not abs(a - b) <= 1e-10 * max(1.0, abs(a)):
+                        raise IllConditioned("amplifies a 1e-12 perturbation to %.3g at %s[%d]" % (abs(a - b), nme, k))
         for nme in names:
             out[nme] = [self.vals[nme][k] for k in range(self.n + 1)]
         return out
